@@ -9,12 +9,13 @@ Open Scope Z_scope.
 (* no layer has a reason to intervene: the handler runs exactly once and the client sees exactly what it would see from
    the bare handler — same status, same handler headers, same body — plus only the balancers' documented cookie;
    flushes arrive unchanged unless a buffer is in the stack (then they can only be dropped) *)
-Theorem C20_transparent : forall st hs s ws,
+Theorem C20_transparent : forall st cn hs s ws,
+  flush_ok cn = true ->      (* the connection: HTTP/1 (full) or HTTP/2 (h2caps) *)
   Forall passive st -> (forall kv, In kv hs -> fst kv < 1000) -> (forall c, s = Some c -> c <> 0) ->
   let h := nf_handler hs s ws in
-  let v := client_view (fst (serve st full h)) in
-  let v0 := client_view (run_handler full h) in
-  snd (serve st full h) = 1 /\
+  let v := client_view (fst (serve st cn h)) in
+  let v0 := client_view (run_handler cn h) in
+  snd (serve st cn h) = 1 /\
   v_hijacked v = false /\ v_hijacked v0 = false /\
   v_status v = v_status v0 /\ v_body v = v_body v0 /\
   handler_hdrs (v_hdrs v) = v_hdrs v0 /\
@@ -29,6 +30,13 @@ Theorem C20_hijack_available : forall st, Forall passive st ->
   snd (serve st full [HHijack]) = 1 /\ v_hijacked (client_view (fst (serve st full [HHijack]))) = true.
 Proof. exact transparent_hijack. Qed.
 Print Assumptions C20_hijack_available.
+
+(* where the connection cannot be hijacked (HTTP/2) the attempt fails through every stack and the handler's
+   fallback response is served as if it had not tried *)
+Theorem C20_hijack_unavailable_falls_back : forall st c h,
+  hijack_ok c = false -> serve st c (HHijack :: h) = serve st c h.
+Proof. exact hijack_unavailable. Qed.
+Print Assumptions C20_hijack_unavailable_falls_back.
 
 (* the first layer with a reason to intervene answers with one complete response of its documented status, whatever
    surrounds it, and the handler is not invoked *)
